@@ -137,6 +137,27 @@ def special_progs(rng):
     q = P(synth.mkset(0, [], [mk(1, [0, 1], [2, 4], struct=True), mk(2, 2, []), mk(3, 4, [])]), [], 0, "none:fields-after-prevented", cleanup=False, err=False)
     q["star"] = True; q["extra_fields"] = {0: {"name": "X1", "t": 2, "tag": 'wire:"-"', "first": True}}; reset_struct(q, [2, 4])
     out.append(q)
+    def Pclean(*a, **kw):          # make_prog decorates at random (a duplicated parameter, ...): take an undecorated draw
+        for _ in range(40):
+            q = P(*a, **kw)
+            if "+" not in q["defect"] and not q.get("names"):
+                return q
+        return q
+    # blank fields: "*" skips them (their type is then needed by nobody else unless something consumes it), "_" names no field
+    q = Pclean(synth.mkset(0, [], [mk(1, [0, 1], [2], struct=True), mk(2, 2, []), mk(3, 4, []), mk(4, 6, [0, 4])]), [], 6, "none:blank-field-star", cleanup=False, err=False)
+    q["star"] = True; q["extra_fields"] = {0: {"name": "_", "t": 4, "tag": "", "first": False}}
+    out.append(q)
+    q = Pclean(synth.mkset(0, [], [mk(1, [0, 1], [2], struct=True), mk(2, 2, []), mk(3, 4, []), mk(4, 6, [1, 4])]), [], 6, "none:blank-field-first-star", cleanup=False, err=False)
+    q["star"] = True; q["extra_fields"] = {0: {"name": "_", "t": 4, "tag": "", "first": True}}
+    out.append(q)
+    q = Pclean(synth.mkset(0, [], [mk(1, [0, 1], [2], struct=True), mk(2, 2, []), mk(3, 4, []), mk(4, 6, [0, 4])]), [], 6, "lit-unknown:blank-field-named", cleanup=False, err=False)
+    q["star"] = False; q["extra_fields"] = {0: {"name": "_", "t": 4, "tag": "", "first": False}}
+    for x in spec.all_sets(q["tree"]):
+        for pr in x["providers"]:
+            if pr["struct"]:
+                pr["_custom_lits"] = ['"F0"', '"_"']; pr["_lit_defect"] = "unknown"
+    q["defect"] = "none+lit-unknown"
+    out.append(q)
     # both forms of a struct provider consumed by one injector: two separate fresh structs
     out.append(P(synth.mkset(0, [], [mk(1, [0, 1], [2], struct=True), mk(2, 2, []), mk(3, 4, [0, 1])]), [], 4, "none:struct-both-forms", cleanup=False, err=False))
     out.append(P(synth.mkset(0, [], [mk(1, [0, 1], [2], struct=True), mk(2, 2, []), mk(3, 4, [1, 0])]), [], 4, "none:struct-both-forms-ptr-first", cleanup=False, err=False))
